@@ -292,6 +292,37 @@ class ServerFacts:
                 return False
         return False
 
+    def dispatcher_one_command_at_a_time(self):
+        """are command handlers started one at a time?  True when every `create_task(f(connection, rest))` of the
+        dispatcher is assigned to ONE name N, sits in a loop guarded by `N is None`, and N is set back to None only
+        where the finished task is recognised (`if task is N`)."""
+        node = self.methods["dispatcher"]
+        starts = []
+        for n in ast.walk(node):
+            if isinstance(n, ast.Call) and ast.unparse(n.func).endswith("create_task") and n.args and ast.unparse(n.args[0]) == "f(connection, rest)":
+                starts.append(n)
+        if len(starts) != 1:
+            return False
+        name = None
+        for n in ast.walk(node):
+            if isinstance(n, ast.Assign) and n.value is starts[0] and len(n.targets) == 1 and isinstance(n.targets[0], ast.Name):
+                name = n.targets[0].id
+        if name is None:
+            return False
+        guarded = False
+        for n in ast.walk(node):
+            if isinstance(n, ast.While) and ("%s is None" % name) in ast.unparse(n.test) and " or " not in ast.unparse(n.test):
+                if any(x is starts[0] for x in ast.walk(n)):
+                    guarded = True
+        resets = [n for n in ast.walk(node) if isinstance(n, ast.Assign) and isinstance(n.targets[0], ast.Name) and n.targets[0].id == name
+                  and isinstance(n.value, ast.Constant) and n.value.value is None]
+        ok_resets = 0
+        for n in ast.walk(node):
+            if isinstance(n, ast.If) and ast.unparse(n.test) == "task is %s" % name:
+                ok_resets += sum(1 for x in n.body if x in resets)
+        # one reset is the initialisation before the loop, the other(s) must be under `if task is N`
+        return bool(guarded and ok_resets >= 1 and len(resets) == ok_resets + 1)
+
     def passive_start_locked(self):
         """are the test `connection.future.passive_server.done()` and the `_start_passive_server` call of BOTH passive
         handlers (pasv, epsv) inside one `async with` on a per-connection lock created in the dispatcher's
@@ -442,11 +473,16 @@ class ServerFacts:
         understand gives "unknown" (which the model maps to no theorem going through)."""
         node = self.methods["dispatcher"]
         branch = None
+        # the statement list that unpacks a parsed command line (`cmd, rest = ...`): the `isinstance(result, tuple)`
+        # branch itself, or the loop that takes the parsed lines from a backlog one at a time
         for n in ast.walk(node):
-            if isinstance(n, ast.If):
-                t = n.test
-                if isinstance(t, ast.Call) and isinstance(t.func, ast.Name) and t.func.id == "isinstance" and ast.unparse(t.args[1]) == "tuple":
-                    branch = n.body
+            for body in (getattr(n, "body", None), getattr(n, "orelse", None)):
+                if not isinstance(body, list):
+                    continue
+                for stt in body:
+                    if (isinstance(stt, ast.Assign) and len(stt.targets) == 1 and isinstance(stt.targets[0], ast.Tuple)
+                            and [getattr(e, "id", None) for e in stt.targets[0].elts] == ["cmd", "rest"]):
+                        branch = body
         if branch is None:
             return None
 
@@ -712,6 +748,8 @@ def gen_server():
     lines.append("def passiveStartLocked : Bool := %s" % ("true" if F.passive_start_locked() else "false"))
     lines.append("/-- `dispatcher` starts with `if not self.server.is_serving(): writer.close(); return` -/")
     lines.append("def dispatcherRefusesWhenNotServing : Bool := %s" % ("true" if F.dispatcher_refuses_when_not_serving() else "false"))
+    lines.append("/-- the dispatcher starts the handler of a command only when the handler of the previous one has returned -/")
+    lines.append("def dispatcherOneCommandAtATime : Bool := %s" % ("true" if F.dispatcher_one_command_at_a_time() else "false"))
     _fin, _drain, _skip = F.reply_queue_facts()
     lines.append("/-- `response_writer` marks the reply it took as done in a `finally` (also when the write failed) -/")
     lines.append("def replyWriterFinishesInFinally : Bool := %s" % ("true" if _fin else "false"))
